@@ -1549,8 +1549,8 @@ func c01skel(list []ast.Stmt) string {
 					for _, e := range cc.List {
 						ls = append(ls, c01exprStr(e))
 					}
-					if j := strings.Join(ls, ","); strings.Contains(j, "LexicalDecl") || strings.Contains(j, "VarDeclList") {
-						continue // for-loop heads with declarations: outside the model
+					if j := strings.Join(ls, ","); strings.Contains(j, "LexicalDecl") {
+						continue // for-loop heads with lexical declarations: outside the model
 					}
 					inner += "case(" + strings.Join(ls, ",") + "){" + b + "}"
 				}
